@@ -600,7 +600,11 @@ def judge_strnorm(case):
     if alnum_multiset(a) != alnum_multiset(b) and base != 'failing':
         viol.append(V('C07|assert_equal|silent-but-relation-false|str,str', 'assert_equal(%r, %r): different alphanumeric content but %s' % (a, b, base)))
     variants = [('case', a.swapcase(), b), ('case', a, b.upper()), ('boundary-punctuation', a + '.', b), ('boundary-punctuation', a, '!' + b),
-                ('boundary-whitespace', '  ' + a, b + ' ')]
+                ('boundary-whitespace', '  ' + a, b + ' '),
+                # documented: lines without any word are removed, lines are sorted
+                ('wordless-line', a + '\n-----', b), ('wordless-line', a, '   \n' + b), ('wordless-line', a.replace('\n', '\n.,;\n', 1), b)]
+    if '\n' in a:
+        variants.append(('line-order', '\n'.join(reversed(a.split('\n'))), b))
     for i, ch in enumerate(a):
         if ch in PUNCT:
             other = PUNCT[(PUNCT.index(ch) + 1) % len(PUNCT)]
@@ -659,7 +663,7 @@ def table(tier):
     for printed, expected, exact in itertools.product(texts, texts, (False, True)):
         yield {'kind': 'output', 'printed': printed, 'expected': expected, 'exact': exact}
     words = ['hello world', 'Hello, World!', 'HELLO WORLD', 'hello, world', 'helloworld', 'a b c', 'A, b; c.', 'abc', 'a', 'A', 'a.',
-             'b', '', 'x y', 'y x', 'total: 5', 'Total 5!', 'total 6']
+             'b', '', 'x y', 'y x', 'total: 5', 'Total 5!', 'total 6', 'Hello\nWorld', 'world\nhello', 'hello!\n-----\nworld.', 'a\n\nb', 'a\nb']
     for a, b in itertools.product(words, words):
         yield {'kind': 'strnorm', 'a': a, 'b': b}
     yield {'kind': 'output', 'printed': '', 'expected': 'x', 'exact': False, 'error': True}
